@@ -504,18 +504,32 @@ func callbacks() {
 		// an explicit, empty set of flags enables nothing (it is not the same as giving none)
 		fs{"EnableMouse(0)", func() { s.EnableMouse(0) }, 0}, fs{"EnableMouse(0,0)", func() { s.EnableMouse(0, 0) }, 0})
 	btnOf := map[int]tcell.ButtonMask{0: tcell.ButtonNone, 1: tcell.Button1, 2: tcell.Button3, 3: tcell.Button2}
-	type pair struct{ prev, cur fs }
+	type pair struct {
+		prev, cur fs
+		susp      bool
+	}
 	var pairs []pair
 	for _, a := range sets {
 		for _, b := range sets {
-			pairs = append(pairs, pair{a, b})
+			pairs = append(pairs, pair{a, b, false})
+			if a.flags != b.flags {
+				// the second setting is made while the screen is suspended
+				pairs = append(pairs, pair{a, b, true})
+			}
 		}
 	}
 	for _, pr := range pairs {
 		pr.prev.set()
 		st := pr.cur
-		st.set()
-		st.name = pr.prev.name + " then " + st.name
+		if pr.susp {
+			_ = s.Suspend()
+			st.set()
+			_ = s.Resume()
+			st.name = pr.prev.name + ", Suspend, " + st.name + ", Resume"
+		} else {
+			st.set()
+			st.name = pr.prev.name + " then " + st.name
+		}
 		for _, handler := range []string{"onMouseClick", "onMouseMove"} {
 			for which := 0; which <= 3; which++ {
 				for m := 0; m < 8; m++ {
@@ -721,6 +735,49 @@ func lifecycle() {
 			rep.Evaluations++
 			rep.Distinct++
 			rep.Counters["lifecycle_sequences"]++
+		}
+	}
+	// with the event queue full nobody can post: a SetSize to a new size waits for the consumer,
+	// and a Fini (or Suspend) from another goroutine returns all the same and releases it
+	if lifePart == 0 {
+		for pending := 8; pending <= 10; pending++ {
+			for _, second := range []string{"Fini", "Suspend+Fini"} {
+				s, _ := tcell.NewTerminfoScreen()
+				if err := s.Init(); err != nil {
+					violate("init", err.Error())
+					return
+				}
+				for s.HasPendingEvent() {
+					s.PollEvent()
+				}
+				for i := 0; i < pending; i++ {
+					_ = s.PostEvent(tcell.NewEventInterrupt(i))
+				}
+				fmt.Printf("WASMCHK-STEP [%d events pending],SetSize||%s\n", pending, second)
+				sizeDone, otherDone := false, false
+				go func() { s.SetSize(61, 21); sizeDone = true }()
+				for i := 0; i < 200; i++ {
+					runtime.Gosched()
+				}
+				go func() {
+					if second == "Suspend+Fini" {
+						_ = s.Suspend()
+					}
+					s.Fini()
+					otherDone = true
+				}()
+				for i := 0; i < 4000 && !(sizeDone && otherDone); i++ {
+					runtime.Gosched()
+				}
+				if !otherDone {
+					violate("lifecycle:call-blocked:full-queue", fmt.Sprintf("with %d events pending and a SetSize to a new size in progress on another goroutine, %s never returns", pending, second))
+				} else if !sizeDone {
+					violate("lifecycle:setsize-not-released", fmt.Sprintf("with %d events pending, the SetSize that was waiting for room in the queue did not return after %s", pending, second))
+				}
+				rep.Evaluations++
+				rep.Distinct++
+				rep.Counters["lifecycle_full_queue_scenarios"]++
+			}
 		}
 	}
 	rep.Samples = append(rep.Samples, map[string]any{"kind": "lifecycle", "sequences": len(seqs), "configurations": len(configs), "example": "[EnablePaste] Suspend,Resume,SetSize,Fini"})
